@@ -224,6 +224,7 @@ func (p *provider) Close() error {
 
 			// The scope may be in the middle of being closed by someone else: every
 			// scope must be completely disposed before the singletons are
+			verifGate("P_waitscope", p, s)
 			<-s.done
 		}
 	}
